@@ -326,7 +326,37 @@ func (c17) Execute(env *Env) {
 				net.mu.Unlock()
 				env.Stat("server-hung", 1)
 			}
+			// A bystander: while the request above waits for its hung rpc to time out (5 s), a
+			// search through the same entry node is sent one second before that moment and
+			// answered slowly (2 s) by the same server. It is in flight on the same connection
+			// when the other call times out, and nothing may happen to it.
+			var bystander <-chan callResult
+			var byErr error
+			var byFR []cluster.FailedRange
+			byPoint := []PointSpec{{ID: 3000 + i, Doc: DocSpec{"n": VI(int64(i)), "s": VS("bystander"), "vf": VV([]float32{float32(i), 1})}}}
+			if op.Hang > 0 && prevDown == "" && ok && op.Kind != "search" && down != entry && len(c.ShardIds) > 0 {
+				net.mu.Lock()
+				net.faults = append(net.faults, &NetFault{Kind: "slow", Method: "RPCInsertPoints", Node: down, Chunk: -1, sticky: true})
+				net.mu.Unlock()
+				bystander = w.Go(entry, func(n *cluster.ClusterNode) {
+					sim.Sleep(4 * time.Second)
+					byFR, byErr = n.InsertPoints(c, toPoints(byPoint))
+				})
+			}
 			clearHang := func() {
+				if bystander != nil {
+					sim.Recv("c17:bystander", bystander)
+					bystander = nil
+					switch {
+					case byErr != nil && shardClosedErr(byErr.Error()):
+						// refused as a whole by a shard that was being unloaded: nothing stored
+					case byErr != nil || len(byFR) > 0:
+						env.Violate("spurious-error", "bystander-insert", "%s: an insert of one fresh point sent while another request of the same node was waiting for a hung server failed although every server it needs answers (slowly): err=%v failed ranges=%v", where, byErr, byFR)
+					default:
+						model.Insert(byPoint)
+					}
+					env.Stat("bystander-inserts", 1)
+				}
 				if op.Hang > 0 && prevDown == "" {
 					net.mu.Lock()
 					net.faults = nil
